@@ -34,9 +34,12 @@ def main():
         subprocess.run(["rsync", "-a", "--exclude", "target", "--exclude", ".git", "/repo/", root + "/"], check=True)
         env = dict(os.environ, CARGO_NET_OFFLINE="true", CARGO_TARGET_DIR=os.path.join(base, "target"))
         demo = os.path.join(d, "seed_demo.rs")
+        feat = []
+        if os.path.exists(os.path.join(d, "features.txt")):
+            feat = ["--features", open(os.path.join(d, "features.txt")).read().strip()]
         if validate:
             shutil.copy(demo, os.path.join(root, "tests", "seed_demo.rs"))
-            rc, o = run(["cargo", "test", "--offline", "--test", "seed_demo"], root, env)
+            rc, o = run(["cargo", "test", "--offline", "--test", "seed_demo"] + feat, root, env)
             out["demo_without_change"] = "pass" if rc == 0 else "FAIL"
         rc, o = run(["git", "apply", "--unsafe-paths", "--directory=" + root, os.path.join(d, "patch.diff")], "/")
         if rc != 0:
@@ -45,7 +48,7 @@ def main():
         if rc != 0:
             out["patch_error"] = o[-500:]
         if validate:
-            rc, o = run(["cargo", "test", "--offline", "--test", "seed_demo"], root, env)
+            rc, o = run(["cargo", "test", "--offline", "--test", "seed_demo"] + feat, root, env)
             out["demo_with_change"] = "fail (as intended)" if rc != 0 else "PASSES (seed does not manifest)"
             os.remove(os.path.join(root, "tests", "seed_demo.rs"))
             rc, o = run(["cargo", "test", "--workspace", "--offline", "--no-fail-fast"], root, env)
